@@ -25,14 +25,18 @@ if pe:
     p = f'{root}/bin/props.py'; s = open(p).read()
     if pre and pre.split('=')[0].strip() not in s:
         s = s.replace('PROPS = {', pre + '\n\nPROPS = {', 1)
-    i = s.rindex('}')
-    s = s[:i] + body + '\n}\n'
+    import textwrap
+    body = re.sub(r'^    "(C\d+)": \{', r'PROPS["\1"] = {', body, flags=re.M)
+    body = textwrap.dedent(body).rstrip().rstrip(',')
+    s = s.rstrip('\n') + '\n\n' + body + '\n'
     open(p, 'w').write(s); print('props + entries')
 me = block(r"##[^\n]*manifest_meta\.py", "python")
 if me:
     p = f'{root}/bin/manifest_meta.py'; s = open(p).read()
-    i = s.rindex('}')
-    s = s[:i] + me.rstrip() + '\n}\n'
+    import textwrap
+    me2 = re.sub(r'^    "(C\d+)": \{', r'META["\1"] = {', me.strip('\n'), flags=re.M)
+    me2 = textwrap.dedent(me2).rstrip().rstrip(',')
+    s = s.rstrip('\n') + '\n\n' + me2 + '\n'
     open(p, 'w').write(s); print('meta + entries')
 kf = block(r"##[^\n]*KNOWN_FINDINGS", "json")
 if kf:
